@@ -91,6 +91,10 @@ pub fn run_c10(case: &Case) -> Outcome {
         let mut dead = false;
         let mut brancher = make_brancher(&cfg.br, &solver, &xs);
         let mut brancher_nvars = nvars;
+        // A brancher is responsible for the variables that existed when it was created (reusing the
+        // default brancher across the creation of variables leaves the new variables unfixed, which is
+        // a misuse and not a defect), so branchers are recreated after variables were added.
+        let reuse_default_brancher = false;
         for _ in 0..nsteps {
             let op = r.gen_range(0..9);
             let fire_at: Option<u64> = if r.gen_range(0..4) == 0 { Some(r.gen_range(0..6)) } else { None };
@@ -129,7 +133,7 @@ pub fn run_c10(case: &Case) -> Outcome {
                     }
                 }
                 3 | 4 => {
-                    if brancher_nvars != nvars {
+                    if brancher_nvars != nvars && !(reuse_default_brancher && matches!(cfg.br, BrSpec::Default)) {
                         brancher = make_brancher(&cfg.br, &solver, &xs);
                         brancher_nvars = nvars;
                     }
@@ -173,7 +177,7 @@ pub fn run_c10(case: &Case) -> Outcome {
                     }
                 }
                 5 => {
-                    if brancher_nvars != nvars {
+                    if brancher_nvars != nvars && !(reuse_default_brancher && matches!(cfg.br, BrSpec::Default)) {
                         brancher = make_brancher(&cfg.br, &solver, &xs);
                         brancher_nvars = nvars;
                     }
@@ -243,7 +247,7 @@ pub fn run_c10(case: &Case) -> Outcome {
                     }
                 }
                 6 => {
-                    if brancher_nvars != nvars {
+                    if brancher_nvars != nvars && !(reuse_default_brancher && matches!(cfg.br, BrSpec::Default)) {
                         brancher = make_brancher(&cfg.br, &solver, &xs);
                         brancher_nvars = nvars;
                     }
@@ -301,7 +305,7 @@ pub fn run_c10(case: &Case) -> Outcome {
                     }
                 }
                 _ => {
-                    if brancher_nvars != nvars {
+                    if brancher_nvars != nvars && !(reuse_default_brancher && matches!(cfg.br, BrSpec::Default)) {
                         brancher = make_brancher(&cfg.br, &solver, &xs);
                         brancher_nvars = nvars;
                     }
